@@ -321,4 +321,38 @@ theorem pumpq_nowait_stranded (acts : List PQAct) :
       queue := [[60, 97, 47, 62, 93, 93, 62, 93, 93, 62], [60, 98, 47, 62, 93, 93, 62, 93, 93, 62]],
       delivered := [], st := .running } rfl rfl)
 
+/-! ### channel messages that are not data are invisible
+
+RFC 4254 orders `exit-status`, window adjustments and extended data (stderr) in no way relative to the
+data packets of a channel; only EOF and CLOSE end the byte stream. The SSH pump ignores them
+(`ChanEv.other`), wherever they are interleaved. -/
+
+/-- removing the non-data messages from a channel history -/
+def dropOther : List ChanEv → List ChanEv
+  | [] => []
+  | .other :: evs => dropOther evs
+  | e :: evs => e :: dropOther evs
+
+/-- **any** interleaving of non-data channel messages (exit-status before the last data packets,
+stderr in the middle of a message, …) leaves the delivered messages, the buffer and the end state of
+the pump exactly as they are without them — for every configuration, history and initial buffer -/
+theorem pump_other_invisible (c : PumpCfg) (evs : List ChanEv) (buf : List Byte) :
+    pump c evs buf = pump c (dropOther evs) buf := by
+  induction evs generalizing buf with
+  | nil => rfl
+  | cons e evs ih =>
+    cases e with
+    | data bs => simp only [pump, dropOther]; rw [ih]
+    | eof => simp [pump, dropOther]
+    | other => simp only [pump, dropOther]; exact ih buf
+    | closed => simp [pump, dropOther]
+
+/-- a pump that treated `exit-status` like EOF (hung up on it) loses what follows: here the second of
+two pipelined replies, although the server sent it before EOF -/
+theorem exit_status_as_eof_cex :
+    (pump .fixed [.data (wire [[60, 97, 47, 62]]), .other, .data (wire [[60, 98, 47, 62]]), .eof] []).1
+      = [[60, 97, 47, 62, 93, 93, 62, 93, 93, 62], [60, 98, 47, 62, 93, 93, 62, 93, 93, 62]]
+    ∧ (pump .fixed [.data (wire [[60, 97, 47, 62]]), .eof, .data (wire [[60, 98, 47, 62]]), .eof] []).1
+      = [[60, 97, 47, 62, 93, 93, 62, 93, 93, 62]] := by decide
+
 end Framing
